@@ -128,6 +128,11 @@ func (l *Live) round(s *State, sc *Scenario, o *ClosureOpts, trace *[]string) (i
 	edss := &v1.ExtendedDaemonSetList{}
 	must(in.List(ctx, edss))
 	for _, e := range edss.Items {
+		if o.OnStep != nil {
+			pre := &v1.ExtendedDaemonSetReplicaSetList{}
+			must(in.List(ctx, pre))
+			l.PreERS = pre.Items
+		}
 		l.API.ResetLog()
 		rr := l.ReconcileEDS(e.Namespace, e.Name)
 		note(Event{K: "R_eds", A: e.Namespace + "/" + e.Name}, rr)
